@@ -390,13 +390,24 @@ def gen_window(rng, lib, ncalls, trace, ctx):
         C = rng.choice([1, 2])
         dts = rng.choice([1, 2, 5, 100, 1000])
         dt = rng.choice([[1, 2], [1, 4], [1, 8], [3, 4], [1, 512], [5, 1]])
+        if call % 3 == 2:      # decimal time steps (0.002, 0.001, 0.005 with dumps every 50..200 steps): the usual MD setting
+            dts = rng.choice([50, 100, 200])
+            dt = rng.choice([[1, 500], [1, 1000], [1, 200]])
         w_target = rng.randint(1, min(8, T - 1))
-        m8 = 8 * w_target + rng.choice([0, 0, 1, 3, 4, 7])
+        m8 = 8 * w_target + (rng.choice([0, 0, 0, 0, 1, 4]) if call % 3 == 2 else rng.choice([0, 0, 1, 3, 4, 7]))
         num, den = dts * dt[0] * m8, dt[1] * 8
         g = math.gcd(num, den)
         period = [num // g, den // g]
         t0 = rng.randint(0, 5000)
         ts = [t0 + f * dts for f in range(T)]
+        # int(period / interval) of a float quotient: where the exact quotient is an integer n, the window length n is
+        # asserted only if the floating-point quotient of the rendered arguments is exactly n (DESIGN 3.3); a quotient
+        # that lands just below n (0.3 / 0.1) is a float-fragile decision and is not asserted
+        if m8 % 8 == 0:        # period = (m8 / 8) intervals
+            qf = (period[0] / period[1]) / ((ts[1] - ts[0]) * (dt[0] / dt[1]))
+            if qf != m8 // 8:
+                ctx.append(("tie", "window-length-float-fragile", None))
+                continue
         vals = [[[K * rng.randint(-50, 50) for _ in range(C)] for _ in range(N)] for _ in range(T)]
         case = {"T": T, "N": N, "C": C, "ts": ts, "prop": vals}
         ss, prop = window_inputs(case)
@@ -622,7 +633,10 @@ def run(tier, replay=None):
         pending = gen_blur(rng, lib, nb, traceB, ctx)
         gen_spatial(rng, lib, ns, traceB, tmp, ctx)
         gen_window(rng, lib, nw, traceB, ctx)
-        for _, clause, c in ctx:
+        for kind, clause, c in ctx:
+            if kind == "tie":
+                chk.tie()
+                continue
             chk.violation(clause, c, finding_key="gaussian_blurring:flat-index" if "ng" in c else None)
         rejects, printed = validate(chk, traceB, "B")
         settle_trace(chk, traceB, rejects, "B")
